@@ -268,16 +268,26 @@ def nistEnergy (cd : Codata) : NistU → Rat
 
 def rabs (x : Rat) : Rat := if x < 0 then -x else x
 
-/-- every published X-Y relationship within `tol` (relative) of the physics, and R(a,b)·R(b,a) within `tol2` of 1 -/
-def relConsistent (cd : Codata) (tol tol2 : Rat) : Bool :=
+/-- every published X-Y relationship within `tol` (relative) of the physics, and R(a,b)·R(b,a) within `tol2` of 1;
+    pairs one of whose units is the kelvin use `tolK` / `tol2K` (k_B is the least precisely known constant of a
+    pre-2019 set, and its relationships are published with the fewest digits) -/
+def relConsistent (cd : Codata) (tol tolK tol2 tol2K : Rat) : Bool :=
   allNist.all fun a => allNist.all fun b =>
     a = b ||
-      (decide (rabs (cd.rel a b * nistEnergy cd b - nistEnergy cd a) ≤ tol * nistEnergy cd a)
-        && decide (rabs (cd.rel a b * cd.rel b a - 1) ≤ tol2))
+      (decide (rabs (cd.rel a b * nistEnergy cd b - nistEnergy cd a)
+            ≤ (if a = .kelvin ∨ b = .kelvin then tolK else tol) * nistEnergy cd a)
+        && decide (rabs (cd.rel a b * cd.rel b a - 1) ≤ (if a = .kelvin ∨ b = .kelvin then tol2K else tol2)))
 
+/-- Tolerances per CODATA set, from the measured consistency of the published tables (harness/c03.py BR_TOL):
+    * CODATA2014, no kelvin: worst pair hertz→1/m 2.95e-10, worst round trip 2.95e-10  → 1e-9;
+    * CODATA2014, kelvin   : worst pair kelvin→hertz 1.08e-8, worst round trip J↔K 9.1e-9 → 2e-8;
+    * CODATA2018 (h, c, e, k, N_A exact; literals truncated to 10 significant digits):
+      worst pair kg→hertz 4.81e-10, worst round trip kg↔hertz 5.92e-10 → 1e-9.
+    Between the two sets the 14 kelvin literals differ by ≥ 3.3e-7 and 28 of the 42 others by 1e-9 … 2e-8
+    (eV→1/m: 8.4e-9), so a literal carried over from the other set breaks this proof. -/
 theorem nist_relationships_consistent :
-    relConsistent Gen.codata2014 (2 / 100000000) (3 / 100000000) = true
-    ∧ relConsistent Gen.codata2018 (2 / 100000000) (3 / 100000000) = true := by
+    relConsistent Gen.codata2014 (1 / 1000000000) (2 / 100000000) (1 / 1000000000) (2 / 100000000) = true
+    ∧ relConsistent Gen.codata2018 (1 / 1000000000) (1 / 1000000000) (1 / 1000000000) (1 / 1000000000) = true := by
   constructor <;> decide +kernel
 
 /-- the generated tables are positive (so every theorem above applies to them) -/
